@@ -1847,6 +1847,18 @@ fn parse_type_arguments(
         if let Some(token) = tokens.peek() {
             if token.text == "," {
                 tokens.pop();
+
+                // A trailing comma at the end of the file: stop,
+                // rather than parsing the comma again forever.
+                if tokens.is_empty() {
+                    diagnostics.push(ParseError::Incomplete {
+                        position: token.position.clone(),
+                        message: ErrorMessage(vec![msgtext!(
+                            "Expected a type after this, but reached the end of the file."
+                        )]),
+                    });
+                    break token.position;
+                }
             } else if token.text == ">" {
                 break token.position;
             } else {
@@ -1910,6 +1922,18 @@ fn parse_type_params(
         if let Some(token) = tokens.peek() {
             if token.text == "," {
                 tokens.pop();
+
+                // A trailing comma at the end of the file: stop,
+                // rather than parsing the comma again forever.
+                if tokens.is_empty() {
+                    diagnostics.push(ParseError::Incomplete {
+                        position: token.position,
+                        message: ErrorMessage(vec![msgtext!(
+                            "Expected a type parameter after this, but reached the end of the file."
+                        )]),
+                    });
+                    break;
+                }
             } else if token.text == ">" {
                 break;
             } else {
